@@ -34,6 +34,10 @@ pub struct Config {
 	/// should read the configuration again.
 	pub(crate) change_signal: Arc<Notify>,
 
+	/// Number of changes signalled so far, so that a change made while a watcher of this config is
+	/// busy (between two `next()` calls) is not missed.
+	pub(crate) change_count: Arc<std::sync::atomic::AtomicU64>,
+
 	/// The main handler to define: what to do when an action is triggered.
 	///
 	/// This handler is called with the [`Action`] environment, look at its doc for more detail.
@@ -159,6 +163,7 @@ impl Default for Config {
 	fn default() -> Self {
 		Self {
 			change_signal: Default::default(),
+			change_count: Default::default(),
 			action_handler: ChangeableFn::new(ActionReturn::Sync),
 			error_handler: Default::default(),
 			pathset: Default::default(),
@@ -182,6 +187,8 @@ impl Config {
 		reason = "this return can explicitly be ignored"
 	)]
 	pub fn signal_change(&self) -> &Self {
+		self.change_count
+			.fetch_add(1, std::sync::atomic::Ordering::SeqCst);
 		self.change_signal.notify_waiters();
 		self
 	}
@@ -192,7 +199,7 @@ impl Config {
 	/// subsequent one is from a change signal for this Config.
 	#[must_use]
 	pub(crate) fn watch(&self) -> ConfigWatched {
-		ConfigWatched::new(self.change_signal.clone())
+		ConfigWatched::new(self.change_signal.clone(), self.change_count.clone())
 	}
 
 	/// Set the pathset to be watched.
@@ -273,16 +280,20 @@ impl Config {
 pub(crate) struct ConfigWatched {
 	first_run: bool,
 	notify: Arc<Notify>,
+	count: Arc<std::sync::atomic::AtomicU64>,
+	seen: u64,
 }
 
 impl ConfigWatched {
-	fn new(notify: Arc<Notify>) -> Self {
+	fn new(notify: Arc<Notify>, count: Arc<std::sync::atomic::AtomicU64>) -> Self {
 		let notified = notify.notified();
 		pin!(notified).as_mut().enable();
 
 		Self {
 			first_run: true,
 			notify,
+			count,
+			seen: 0,
 		}
 	}
 
@@ -291,14 +302,24 @@ impl ConfigWatched {
 		let mut notified = pin!(notified);
 		notified.as_mut().enable();
 
+		use std::sync::atomic::Ordering::SeqCst;
 		if self.first_run {
 			trace!("ConfigWatched: first run");
 			self.first_run = false;
+			self.seen = self.count.load(SeqCst);
 		} else {
+			// a change made after the previous Notified resolved but before this one was armed
+			// shows up as a count we have not seen yet
+			let now = self.count.load(SeqCst);
+			if now != self.seen {
+				trace!("ConfigWatched: change happened while busy");
+				self.seen = now;
+				return;
+			}
+
 			trace!(?notified, "ConfigWatched: waiting for change");
-			// there's a bit of a gotcha where any config changes made after a Notified resolves
-			// but before a new one is issued will not be caught. not sure how to fix that yet.
 			notified.await;
+			self.seen = self.count.load(SeqCst);
 		}
 	}
 }
